@@ -27,6 +27,7 @@ func replayFile(path string) int {
 			Mtu, Size   int
 			MtuBefore   int `json:"mtu_before"`
 			Config      string
+			History     string
 			Sizes       []int
 			Shape       []int
 			Source      string
@@ -50,6 +51,8 @@ func replayFile(path string) int {
 				change = 1
 			case "SetMTU(lowered-on-live-face)":
 				change = 2
+			case reconfFeature:
+				// the history itself is in r.History
 			default:
 				feats = append(feats, f)
 			}
@@ -71,7 +74,16 @@ func replayFile(path string) int {
 		c.mtuChange = change
 		var st caseStats
 		var p *pair
-		if r.MtuBefore > 0 {
+		if r.History != "" {
+			c.hist = r.History
+			p = newPairHist(ctx, r.Mtu, *c, &st)
+			fresh := newPair(getCtx(), r.Mtu, cfg{fragOn: c.fragOn, ifi: c.ifi, tok: c.tok, mark: c.mark})
+			fresh.runCase(r.Size, &st)
+			p.runCase(r.Size, &st)
+			if nf, n := len(fresh.stx.VerifFrames()), len(p.stx.VerifFrames()); nf == 1 && n != 1 {
+				addVio("C10.one", reconfOneSymptom, *c, r.Mtu, r.Size, fmt.Sprintf("fresh sender: 1 frame; after [%s]: %d frames", reconfDescribe(r.History), n), func() map[string]any { return nil })
+			}
+		} else if r.MtuBefore > 0 {
 			p = newPairChanged(ctx, r.MtuBefore, r.Mtu, *c, &st)
 		} else {
 			p = newPair(ctx, r.Mtu, *c)
